@@ -28,6 +28,14 @@
 #include "runtime/list_int.h"
 #include "runtime/list_string.h"
 #include "runtime/nl_string.h"
+/* the C text nanoc emits into every native program (string formatting, string builtins, array helpers), generated at
+ * build time from the working tree by prelude_gen; compiled here with the sanitizers and driven by the em_* operations */
+#include <assert.h>
+#include <math.h>
+#include <ctype.h>
+#include <limits.h>
+#include <time.h>
+#include "emitted_prelude.inc"
 
 #ifndef RT_PLAIN
 #include <sanitizer/common_interface_defs.h>
@@ -109,13 +117,15 @@ enum { OP_NEW, OP_NEWCAP, OP_PUSH, OP_POP, OP_GET, OP_SET, OP_INSERT, OP_REMOVE,
        OP_LS_NEW, OP_LS_PUSH, OP_LS_POP, OP_LS_INSERT, OP_LS_REMOVE, OP_LS_SET, OP_LS_CLEAR, OP_LS_FREE,
        OP_NS_NEW, OP_NS_CONCAT, OP_NS_SUBSTR, OP_NS_CLONE, OP_NS_RESERVE, OP_NS_FREE, OP_NS_UTF8, OP_GC_RESTART, OP_GCSTR_HOLD, OP_GCSTR_DROP,
        OP_PUSH_SELF, OP_SET_SELF, OP_LS_SET_SELF, OP_RETAIN_MANY,
-       OP_NS_CSTR, OP_NS_FROM_UTF8, OP_NS_WITHCAP, OP_WRAP, OP_WRAP_DROP, NOPS };
+       OP_NS_CSTR, OP_NS_FROM_UTF8, OP_NS_WITHCAP, OP_WRAP, OP_WRAP_DROP,
+       OP_EM_FSB, OP_EM_TOSTR, OP_EM_STR, OP_EM_SLICE, NOPS };
 static const char *opname[] = { "new", "new_with_capacity", "push", "pop", "get", "set", "insert", "remove_at", "clear", "reserve", "clone", "retain", "release", "ballast", "collect", "gc_string",
        "li_new", "li_push", "li_pop", "li_insert", "li_remove", "li_set", "li_clear", "li_free",
        "ls_new", "ls_push", "ls_pop", "ls_insert", "ls_remove", "ls_set", "ls_clear", "ls_free",
        "ns_new", "ns_concat", "ns_substring", "ns_clone", "ns_reserve", "ns_free", "ns_utf8", "gc_restart", "gc_string_hold", "gc_string_drop",
        "push_own_element", "set_from_own_element", "ls_set_from_own_element", "retain_release_many",
-       "ns_to_cstr", "ns_from_utf8", "ns_with_capacity", "wrap_external", "wrapped_drop" };
+       "ns_to_cstr", "ns_from_utf8", "ns_with_capacity", "wrap_external", "wrapped_drop",
+       "em_fmt_sb", "em_to_string_array", "em_str_builtins", "em_array_slice" };
 /* generated list types and byte strings: two slots each, modelled by plain C arrays */
 #define LMAX 300
 static struct { List_int *l; int n; int64_t v[LMAX]; } LI[2];
@@ -128,6 +138,17 @@ static struct { void *w; void *ext; int fin_at_wrap; bool opaque; } WR[3]; stati
 static void wr_finalizer(void *p) { fin_calls++; fin_last = p; free(p); }
 static void op_finalizer(void *p) { fin_calls++; fin_last = p; }
 static bool utf8_ref(const uint8_t *d, size_t n, long *count);
+static void viol(const char *sig, const char *fmt, ...);
+/* emitted format string builders: two slots, modelled by a byte array */
+static struct { bool live; nl_fmt_sb_t sb; size_t n; char v[8192]; } FSB[2];
+static void fsb_check(int k, int i) {
+    nl_fmt_sb_t *b = &FSB[k].sb;
+    if (!b->buf) { viol("em-fmt-sb-lost-buffer", "op %d: emitted string builder %d has no buffer", i, k); return; }
+    if (b->len != FSB[k].n) { viol("em-fmt-sb-length", "op %d: emitted string builder %d holds %zu bytes, model %zu", i, k, b->len, FSB[k].n); return; }
+    if (b->len + 1 > b->cap) { viol("em-fmt-sb-capacity", "op %d: emitted string builder %d: length %zu and its terminator do not fit capacity %zu", i, k, b->len, b->cap); return; }
+    const char *r = nl_fmt_sb_build(b);
+    if (memcmp(r, FSB[k].v, FSB[k].n) != 0 || r[FSB[k].n] != 0) viol("em-fmt-sb-contents", "op %d: emitted string builder %d does not hold the %zu appended bytes followed by NUL", i, k, FSB[k].n);
+}
 typedef struct Op { int op, arr, kind; long x, y; } Op;
 typedef struct Plan { uint64_t seed; int junk, movere, stale, thresh, image; int nops; Op ops[256]; } Plan;
 
@@ -238,6 +259,7 @@ static int pick_live(long x) { int c = 0; for (int i = 0; i < MAXA; i++) c += A[
 
 static void run_plan(Plan *P) {
     memset(held, 0, sizeof held); memset(WR, 0, sizeof WR); fin_calls = 0; memset(A, 0, sizeof A); memset(LI, 0, sizeof LI); memset(LS, 0, sizeof LS); memset(NS, 0, sizeof NS); live_objects = 0; nballast = 0; vsig[0] = vmsg[0] = 0; n_checks = 0;
+    memset(FSB, 0, sizeof FSB);
     junk_byte = P->junk; move_realloc = P->movere; stale_recycle = P->stale; stale_image = P->image; ncache = 0;
     hdr_obj_size = sizeof(GCHeader) + sizeof(DynArray);
     gc_init();
@@ -454,6 +476,75 @@ static void run_plan(Plan *P) {
             gc_release(WR[k].w); WR[k].w = NULL; live_objects--;
             if (fin_calls != before + 1 || fin_last != ext) viol("finalizer-count", "op %d: releasing the last owner of a wrapped pointer ran its finalizer %d time(s)", i, fin_calls - before);
             break; }
+        /* ---- the emitted prelude (text nanoc puts into every native program) ---- */
+        case OP_EM_FSB: { int k = o->arr & 1;
+            if (!FSB[k].live) { static const size_t caps[] = { 0, 1, 2, 3, 16, 128, 256 }; FSB[k].sb = nl_fmt_sb_new(caps[(unsigned long)o->x % 7]); FSB[k].n = 0; FSB[k].live = FSB[k].sb.buf != NULL; if (FSB[k].live) fsb_check(k, i); break; }
+            nl_fmt_sb_t *b = &FSB[k].sb; size_t room = b->cap - b->len;   /* bytes left including the terminator's */
+            switch (o->y % 5) {
+            case 0: case 1: case 2: {   /* append a C string whose length lands on or around the end of the buffer */
+                static const long near[] = { -2, -1, 0, 1, 2 }; long L = (o->y / 5) % 3 ? (long)room + near[(unsigned long)o->x % 5] : o->x % 300;
+                if (L < 0) L = 0; if (FSB[k].n + (size_t)L + 1 > sizeof FSB[k].v) L = 0;
+                char *t = malloc((size_t)L + 1); for (long q = 0; q < L; q++) t[q] = (char)('A' + (q + o->x) % 26); t[L] = 0;
+                nl_fmt_sb_append_cstr(b, t); memcpy(FSB[k].v + FSB[k].n, t, (size_t)L); FSB[k].n += (size_t)L; free(t); break; }
+            case 3: if (FSB[k].n + 2 < sizeof FSB[k].v) { char c = (char)('a' + o->x % 26); nl_fmt_sb_append_char(b, c); FSB[k].v[FSB[k].n++] = c; } break;
+            default: fsb_check(k, i); free(b->buf); memset(b, 0, sizeof *b); FSB[k].live = false; break; }
+            if (FSB[k].live && !vsig[0]) fsb_check(k, i);
+            break; }
+        case OP_EM_TOSTR: { int t = pick_live(o->arr); if (t < 0) break; m = &A[t]; if (m->kind == K_ARRAY) break;
+            /* the emitted formatter against a model rendering; what it allocates per element stays owned by nobody (by design of
+             * the emitted code) and is accounted for in the model's live-object count */
+            char want[16384]; size_t w = 0; want[w++] = '[';
+            for (int e = 0; e < m->len && w < sizeof want - 200; e++) {
+                if (e) { want[w++] = ','; want[w++] = ' '; }
+                switch (m->kind) {
+                case K_INT: w += (size_t)sprintf(want + w, "%lld", (long long)m->v[e].i); break;
+                case K_U8: w += (size_t)sprintf(want + w, "%lld", (long long)(uint8_t)m->v[e].i); break;
+                case K_FLOAT: w += (size_t)sprintf(want + w, "%g", m->v[e].f); break;
+                case K_BOOL: w += (size_t)sprintf(want + w, "%s", m->v[e].i ? "true" : "false"); break;
+                case K_STRING: w += (size_t)sprintf(want + w, "\"%s\"", m->v[e].s); break;
+                default: w += (size_t)sprintf(want + w, "<struct>"); break; }
+            }
+            want[w++] = ']'; want[w] = 0;
+            size_t before = gc_get_stats().num_objects;
+            const char *got = nl_to_string_array(m->d);
+            size_t after = gc_get_stats().num_objects;
+            long expect_new = (m->kind == K_INT || m->kind == K_U8 || m->kind == K_FLOAT) ? m->len : 0;
+            if (!got || strcmp(got, want) != 0) { viol("em-to-string-array-differs", "op %d: emitted nl_to_string_array of a %d-element %s array does not render the model list", i, m->len, kname[m->kind]); break; }
+            if ((long)(after - before) != expect_new) { viol("em-to-string-array-objects", "op %d: emitted nl_to_string_array created %ld collector objects, expected %ld", i, (long)(after - before), expect_new); break; }
+            live_objects += (int)expect_new;
+            if (strcmp(got, "[]") != 0 || m->len == 0) free((void *)got);
+            break; }
+        case OP_EM_STR: {
+            /* emitted string builtins: concat / substring / contains / char_at / from_char / int_to_string against libc on plain buffers */
+            char a1[600], b1[300]; size_t la = (size_t)(o->x % 290), lb = (size_t)(o->y % 290);
+            for (size_t q = 0; q < la; q++) a1[q] = (char)('a' + (q * 7 + (size_t)o->x) % 26); a1[la] = 0;
+            for (size_t q = 0; q < lb; q++) b1[q] = (char)('A' + (q * 3 + (size_t)o->y) % 26); b1[lb] = 0;
+            size_t before = gc_get_stats().num_objects;
+            const char *c = nl_str_concat(a1, b1);
+            if (strlen(c) != la + lb || memcmp(c, a1, la) != 0 || memcmp(c + la, b1, lb) != 0) { viol("em-str-concat-differs", "op %d: emitted nl_str_concat of %zu and %zu bytes", i, la, lb); break; }
+            int64_t st = (int64_t)(o->y % (long)(la + 3)) - 1, ln = (int64_t)(o->x % (long)(la + 3)) - 1;
+            const char *sub = nl_str_substring(a1, st, ln);
+            { size_t ws = 0, wl = 0; if (st >= 0 && (size_t)st < la && ln >= 0) { ws = (size_t)st; wl = (size_t)ln; if (ws + wl > la) wl = la - ws; }
+              if (strlen(sub) != wl || memcmp(sub, a1 + ws, wl) != 0) { viol("em-str-substring-differs", "op %d: emitted nl_str_substring(%zu bytes, %lld, %lld) is not the %zu bytes at %zu", i, la, (long long)st, (long long)ln, wl, ws); break; } }
+            if (la) { int64_t ix = o->y % (long)la; if (char_at(a1, ix) != (unsigned char)a1[ix]) { viol("em-char-at-differs", "op %d: emitted char_at(%lld)", i, (long long)ix); break; } }
+            char *fc = string_from_char('a' + o->x % 26); if (strlen(fc) != 1 || fc[0] != (char)('a' + o->x % 26)) { viol("em-string-from-char-differs", "op %d", i); break; }
+            int64_t iv = (o->x % 3 == 0) ? INT64_MIN : (o->x % 3 == 1) ? INT64_MAX - o->y : -(int64_t)o->x * o->y; char wb[40]; snprintf(wb, sizeof wb, "%lld", (long long)iv);
+            char *is = int_to_string(iv); if (strcmp(is, wb) != 0) { viol("em-int-to-string-differs", "op %d: emitted int_to_string(%lld) gives %s", i, (long long)iv, is); break; }
+            if (nl_str_contains(c, b1) != true || nl_str_equals(c, c) != true) { viol("em-str-contains-differs", "op %d", i); break; }
+            if (string_to_int(wb) != iv && iv != INT64_MIN) { viol("em-string-to-int-differs", "op %d: emitted string_to_int(%s)", i, wb); break; }
+            /* the harness was the only owner of what these calls returned */
+            const void *owned[4] = { c, sub, fc, is }; for (int q = 0; q < 4; q++) if (gc_is_managed((void *)owned[q])) gc_release((void *)owned[q]);
+            if (gc_get_stats().num_objects != before) viol("em-str-objects", "op %d: emitted string builtins left %ld collector objects behind after their only owner released them", i, (long)(gc_get_stats().num_objects - before));
+            break; }
+        case OP_EM_SLICE: { int t = pick_live(o->arr); if (t < 0) break; m = &A[t];
+            int64_t st = (int64_t)(o->x % (long)(m->len + 4)) - 2, ln = (int64_t)(o->y % (long)(m->len + 4)) - 2;
+            DynArray *sl = nl_array_slice(m->d, st, ln); if (!sl) break;
+            int64_t ws = st < 0 ? 0 : st, wl = ln < 0 ? 0 : ln; if (ws > m->len) ws = m->len; if (ws + wl > m->len) wl = m->len - ws;
+            if (dyn_array_length(sl) != wl) viol("em-array-slice-length", "op %d: emitted nl_array_slice(%d elements, %lld, %lld) has %lld elements, model %lld", i, m->len, (long long)st, (long long)ln, (long long)dyn_array_length(sl), (long long)wl);
+            else if (sl->length > sl->capacity) viol("length-exceeds-capacity", "op %d: emitted nl_array_slice result length %lld > capacity %lld", i, (long long)sl->length, (long long)sl->capacity);
+            else for (int64_t e = 0; e < wl; e++) if (!valeq(m->kind, m->ssize, &m->v[ws + e], sl, (int)e)) { viol("em-array-slice-contents", "op %d: emitted nl_array_slice element %lld differs from the model", i, (long long)e); break; }
+            gc_release(sl);
+            break; }
         case OP_NS_FREE: { int a1 = o->arr % 3; if (!NS[a1].s) break; nl_string_free(NS[a1].s); NS[a1].s = NULL; NS[a1].n = 0; break; }
         }
         if (rt_calls != calls_before || n_alloc != alloc_before) op_fired[o->op]++;
@@ -553,7 +644,8 @@ int main(int argc, char **argv) {
             char kind[64] = "", site[128] = "";
             char *e = strstr(rep, "Sanitizer: "); if (e) { e += 11; size_t l = strcspn(e, " \n"); if (l > 63) l = 63; memcpy(kind, e, l); kind[l] = 0; }
             if (!e && strstr(rep, "runtime error:")) { char *q = strstr(rep, "runtime error:") + 15; size_t l = strcspn(q, "\n"); if (l > 63) l = 63; memcpy(kind, q, l); kind[l] = 0; for (char *c = kind; *c; c++) if (*c == ' ' || *c == '"') *c = '_'; }
-            for (char *p = rep; (p = strstr(p, " in ")); ) { p += 4; if (strstr(p, "/src/runtime/") && strstr(p, "/src/runtime/") < strchr(p, '\n')) { char fn[64] = "", file[128] = ""; sscanf(p, "%63s %127s", fn, file); char *b = strrchr(file, '/'); b = b ? b + 1 : file; char *c = strchr(b, ':'); if (c) *c = 0; snprintf(site, sizeof site, "%s@%s", fn, b); break; } }
+            for (char *p = rep; (p = strstr(p, " in ")); ) { p += 4; const char *hit = strstr(p, "/src/runtime/"); char *eol = strchr(p, '\n'); if (!eol) break; if (!(hit && hit < eol)) { hit = strstr(p, "emitted_prelude.inc"); }
+                if (hit && hit < eol) { char fn[64] = "", file[128] = ""; sscanf(p, "%63s %127s", fn, file); char *b = strrchr(file, '/'); b = b ? b + 1 : file; char *c = strchr(b, ':'); if (c) *c = 0; snprintf(site, sizeof site, "%s@%s", fn, b); break; } }
             unlink(lp);
             printf("{\"family\":\"rt\",\"seed\":%llu,\"verdict\":\"crash\",\"role\":\"runtime\",\"wstatus\":%d,\"kind\":\"%s\",\"site\":\"%s\",\"asan\":", (unsigned long long)P.seed, st, kind, site);
             jstr(stdout, rep); printf(",\"plan\":"); jstr(stdout, pt); printf("}\n");
